@@ -81,6 +81,7 @@ package encryption
 // ------------------------------------------------------------------ C13 / C19: decrypting arbitrary store bytes never panics
 //@ func (*gcmCipher).Decrypt
 //@ safety
+//@ replay recv func() *gcmCipher { c, _ := NewGCMCipher([]byte("0123456789abcdef")); return c.(*gcmCipher) }()
 //@ prop C13 C19
 //@ ensures[error-means-no-plaintext] ret1 != nil ==> ret0 == nil
 //@ ensures[plaintext-only-from-authenticated-open] ret1 == nil ==> called(Open) && ret1(Open) == nil && ret0 == ret0(Open)
